@@ -15,6 +15,14 @@ Theorem C10_exact : forall refs ps,
 Proof. exact exact. Qed.
 Print Assumptions C10_exact.
 
+(* The same for a raw argument string read with the code's own recogniser of reference tokens
+   (which loses no text). *)
+Theorem C10_exact_string : forall refs args,
+  flatten (tokenise args) = args /\
+  (separated refs (tokenise args) -> resolve_args refs args = spec refs (tokenise args)).
+Proof. intros refs args. split; [apply flatten_tokenise|apply exact_string]. Qed.
+Print Assumptions C10_exact_string.
+
 (* Under the same hypothesis (and if no token denotes two references with different values) the
    result does not depend on the declaration order. *)
 Theorem C10_order_independent : forall refs refs' ps,
@@ -67,5 +75,5 @@ Example C10_nonvacuous :
   resolve_args ex_refs (flatten ex_ps) =
     "-x /I/stages/stage1/AB --in=/I/stages/stage0/A/f.txt /I/stages/stage1/A n=42 /I/stages/stage1/AB" /\
   resolve_args (rev ex_refs) (flatten ex_ps) = resolve_args ex_refs (flatten ex_ps) /\
-  unused_refs ex_refs (flatten ex_ps) = [].
+  unused_refs ex_refs (flatten ex_ps) = [] /\ same_tokenisation ex_ps = true.
 Proof. vm_compute. repeat split; reflexivity. Qed.
